@@ -1220,6 +1220,13 @@ JUMP_MODELS = {
         {'expr': {'name': 'i', 'expr': {'binary': {'op': '+', 'left': V('i'), 'right': N(1)}}}},
         {'expr': {'expr': {'function': {'name': 'arrayPush', 'args': [V('t'), {'function': {'name': 'inner', 'args': [V('i')]}}]}}}},
         J('loop', {'binary': {'op': '<', 'left': V('i'), 'right': N(3)}}), RET(V('t'))]},
+    'duplicate labels: the first is skipped by a forward jump, the second passed by fall-through before any jump to the name': {'statements': [
+        {'expr': {'name': 'i', 'expr': N(0)}}, J('b'), LB('a'), _L('after the first a'), LB('b'), LB('a'), {'expr': {'name': 'i', 'expr': {'binary': {'op': '+', 'left': V('i'), 'right': N(1)}}}},
+        J('a', {'binary': {'op': '<', 'left': V('i'), 'right': N(3)}}), RET(V('i'))]},
+    'duplicate labels inside a function, jumped to backwards and forwards': {'statements': [
+        _F('f', [{'expr': {'name': 'k', 'expr': N(0)}}, J('x'), _L('skipped'), LB('x'), _L('first x'), {'expr': {'name': 'k', 'expr': {'binary': {'op': '+', 'left': V('k'), 'right': N(1)}}}},
+                 J('y', {'binary': {'op': '>', 'left': V('k'), 'right': N(1)}}), LB('x'), _L('second x'), J('x'), LB('y'), RET(V('k'))]),
+        _C('f', 'r'), RET(V('r'))]},
     'a jump out of a function body to a label of the caller': {'statements': [
         _F('f', [J('outer'), RET(N(1))]), LB('outer'), _L('top'), _C('f', 'r'), RET(V('r'))]},
 }
@@ -1237,7 +1244,7 @@ def run_models(repo, rule='E9r'):
             n += 1
             subj.models['\0model'] = ('model', am)
             try:
-                sub = subj.run('\0model', {}, max_statements=0)
+                sub = subj.run('\0model', {}, max_statements=3000)
             except Unrecognised as exc:
                 raise Unrecognised(exc.rule or rule, f'model "{desc}": {exc.what}', exc.where)
             cnt = sub[4].d.get('statementCount') if sub[4] is not None else None
